@@ -432,6 +432,10 @@ fn process(cfg: CliOptions) -> Vec<RuntimeError> {
                     e.into(),
                 ))
             });
+        // service and resource names follow the unit as merged with its drop-ins
+        if let Ok(merged) = QuadletUnitFile::from_unit_file(quadlet.unit_file.clone()) {
+            *quadlet = merged;
+        }
     }
 
     if !cfg.dry_run {
